@@ -29,8 +29,8 @@ def parse_histories(text):
         if l.startswith("H "):
             cur = []
             hs.append(cur)
-        elif l.startswith("E "):
-            cur.append([l[2:], []])
+        elif l.startswith("E ") or l.startswith("C "):
+            cur.append([l if l.startswith("C ") else l[2:], []])
         elif cur is not None and cur:
             cur[-1][1].append(l)
     return hs
@@ -52,7 +52,7 @@ def compare(impl_text, model_text):
         prev = None
         for k, ((e, il), (e2, ml)) in enumerate(zip(a, b)):
             stats["edits"] += 1
-            op = e.split()[0]
+            op = e.split()[1] if e.startswith("C ") else e.split()[0]
             stats["by_edit"][op] = stats["by_edit"].get(op, 0) + 1
             impl_s = il[0] if il else "<none>"
             model_s = next((x for x in ml if x.startswith("S ") or x == "bad-edit"), "<none>")
@@ -77,8 +77,11 @@ def compare(impl_text, model_text):
                               "impl": impl_s, "model": model_s, "verdict": pline})
                 break
             if impl_s != model_s:
-                fails.append({"kind": "correspondence", "history": edits[:k + 1], "step": k,
-                              "impl": impl_s, "model": model_s, "verdict": pline})
+                # for an invocation of the command line tool the model IS the specification of the
+                # option (delete exactly the listed ids that exist, once each: theorem cliIds_spec)
+                kind = "property-fails-on-impl" if e.startswith("C ") else "correspondence"
+                fails.append({"kind": kind, "history": edits[:k + 1], "step": k,
+                              "impl": impl_s, "model": model_s, "verdict": pline or "the command line option did not do what it names"})
                 break
     return stats, fails
 
@@ -96,8 +99,11 @@ def run_pair(hbin, args, stdin_text=None, timeout=1200):
 def replay_edits(hbin, edits):
     d = vlib.scratch_dir("c10")
     f = os.path.join(d, "replay.txt")
-    open(f, "w").write("H 0\n" + "".join("E %s\n" % e for e in edits))
-    impl, model = run_pair(hbin, ["replay", f])
+    open(f, "w").write("H 0\n" + "".join(("%s\n" % e) if e.startswith("C ") else ("E %s\n" % e) for e in edits))
+    args = ["replay", f]
+    if any(e.startswith("C ") for e in edits):
+        args += [vlib.go_build_repo("bondmachine"), vlib.scratch_dir("c10cli-replay")]
+    impl, model = run_pair(hbin, args)
     return compare(impl, model)
 
 
@@ -171,6 +177,16 @@ def run(rep):
         hs = parse_histories(impl)
         for h in hs[:3]:
             samples.append({"history": [e for e, _ in h], "final_state": (h[-1][1] or ["?"])[0]})
+        # 2b. the command line layer: the real cmd/bondmachine binary driven on a saved machine
+        cli = vlib.go_build_repo("bondmachine")
+        ncli = 300 if thorough else 40
+        impl, model = run_pair(hbin, ["cli", str(ncli), "6", cli, vlib.scratch_dir("c10cli")])
+        st, fs = compare(impl, model)
+        for f in fs:
+            f["cli"] = True
+        absorb(st)
+        fails += fs
+        rep.coverage["cli_histories"] = st["histories"]
         # 3. exhaustive short histories over a fixed alphabet
         depth = 4 if thorough else 2
         impl, model = run_pair(hbin, ["exhaustive", str(depth)])
